@@ -310,8 +310,12 @@ ASSUMPTIONS = [
 ]
 
 
+def short(n):
+    return symex.short_fn(n) if hasattr(symex, 'short_fn') else n
+
+
 def finish(R, level, explanation):
-    vac = [c for c in R.covers if (c[1] == 'requires-satisfiable' and c[2] == 'unsat') or (c[1] == 'exit-reachable' and c[2] in ('unsat', 'no-exit-path'))]
+    vac = [c for c in R.covers if (c[1] == 'requires-satisfiable' and c[2] == 'unsat') or (c[1] == 'exit-reachable' and c[2] in ('unsat', 'no-exit-path')) or (c[1] == 'hypotheses-satisfiable' and c[2] == 'unsat')]
     if vac:
         R.log('VACUOUS precondition(s) / unreachable exit:', vac)
         write_evidence(R, level, 'vacuous precondition: ' + repr(vac))
@@ -332,6 +336,10 @@ def finish(R, level, explanation):
             with open(path, 'w') as f:
                 json.dump(dict(kind='ground obligation over the shipped constants fails', obligation=g[0], failing=str(g[2])[:4000]), f, indent=1)
             R.violations.append(dict(key='ground:' + g[0][:120], replay=path, replayed=True, what='ground obligation'))
+    dead = [c for c in R.covers if c[1] == 'dead-path']
+    if dead:
+        R.notes.append('paths that ended because an assumed clause contradicted the path condition (neither side of a branch feasible): %d -- %r' % (len(dead), sorted(set(c[2] for c in dead))[:12]))
+        R.log('dead paths (assumed clause contradicts the path):', len(dead), sorted(set((short(c[0]), c[2]) for c in dead))[:8])
     slow = sorted(R.obligations, key=lambda o: -o.time)[:8]
     R.log('slowest:', [(o.name, round(o.time, 1), o.backend) for o in slow if o.time > 1])
     triage(R)
@@ -344,6 +352,11 @@ def finish(R, level, explanation):
             print('VIOLATION property=%s replay=%s%s' % (R.prop, v['replay'], tail))
         R.log('violations:', [v['key'] for v in R.violations])
         return 1
+    if dead:
+        # no obligation failed, yet some path ended because an ASSUMED clause (callee postcondition, definition, invariant) contradicted
+        # the path condition: whatever follows on that path was never checked.  A checker problem, not a verdict about the code.
+        R.log('VACUOUS: %d path(s) ended on a contradictory assumption and no obligation failed' % len(dead))
+        return 3
     if R.undecided or R.out_of_reach:
         R.log('UNDECIDED:', R.undecided[:10], R.out_of_reach[:10])
         return 2
